@@ -525,6 +525,9 @@ func (r *Runner) Run(bi int, sc *Script, st *Stats) ([]Mismatch, error) {
 						a.Decide(Abort)
 						s.accounted[url(ev.H, r.epIndex(ev.H, a.EP))]++
 						s.held[h] = nil
+						if ev.Pos > 1 {
+							st.MidBatchFails++
+						}
 						break
 					}
 					if !closed {
@@ -534,6 +537,9 @@ func (r *Runner) Run(bi int, sc *Script, st *Stats) ([]Mismatch, error) {
 					if n := r.flog.Failed(u); n > s.accounted[u] {
 						s.accounted[u] = n
 						st.RefusedSeen++
+						if ev.Pos > 1 {
+							st.MidBatchFails++
+						}
 						if !s.tainted {
 							st.StepsCompared++ // the attempt went to the endpoint TLC computed (the log names the URL)
 						}
